@@ -564,6 +564,8 @@ func (s *syncBuf) countID(id string) int {
 
 type runner struct {
 	kind string
+	// captured reports whether the HAR entry holds the body: "1", "0" or "?" (cannot tell)
+	captured func() string
 	// results
 	records func() int
 	text    *string
@@ -644,6 +646,29 @@ func newRunner(lg string, isReq bool) (*runner, string) {
 				}
 			}
 			return n
+		}
+		r.captured = func() string {
+			es := l.Export().Log.Entries
+			if len(es) != 1 {
+				return "?"
+			}
+			e := es[0]
+			if isReq {
+				if e.Request == nil || e.Request.PostData == nil {
+					return "0"
+				}
+				if e.Request.PostData.Text != "" || len(e.Request.PostData.Params) > 0 {
+					return "1"
+				}
+				return "?" // an empty body and a body not captured look the same
+			}
+			if e.Response == nil || e.Response.Content == nil {
+				return "?"
+			}
+			if e.Response.Content.Text != nil {
+				return "1"
+			}
+			return "0"
 		}
 	case "marbl":
 		sb := &syncBuf{}
@@ -781,6 +806,9 @@ func runCase(in []string) (out []string) {
 		fwd = "0"
 	}
 	out = append(out, "fwd="+fwd, "ufr="+framing(uw), "lfr="+framing(lw), "rec="+strconv.Itoa(rec))
+	if r1.captured != nil && e1 == "0" {
+		out = append(out, "cap="+r1.captured())
+	}
 	if e1 != e2 {
 		e1 = e1 + "/" + e2
 	}
@@ -811,9 +839,12 @@ func runCase(in []string) (out []string) {
 		tb, te := readAllTok(mv.TrailerReader(), nil)
 		fr, ferr := mv.Reader()
 		fb, fe := readAllTok(fr, ferr)
-		if len(fb) > inlineMax {
-			cat := append(append(append([]byte(nil), hb...), bb...), tb...)
-			out = append(out, "s.cat="+bodyTok(cat)+he+be+te, "s.full="+bodyTok(fb)+fe)
+		if len(fb) > inlineMax && len(hb)+len(tb) <= len(fb) && len(hb)+len(tb) < inlineMax {
+			// projection of a big message: head bytes | SHA-256 of the middle | tail
+			// bytes, cut where the header and trailer sections say
+			mid := fb[len(hb) : len(fb)-len(tb)]
+			out = append(out, "s.h="+hx.Hex(hb)+he, "s.b="+bodyTok(bb)+be, "s.t="+hx.Hex(tb)+te,
+				"s.full="+hx.Hex(fb[:len(hb)])+"|"+bodyTok(mid)+"|"+hx.Hex(fb[len(fb)-len(tb):])+fe)
 		} else {
 			out = append(out, "s.h="+hx.Hex(hb)+he, "s.b="+hx.Hex(bb)+be, "s.t="+hx.Hex(tb)+te, "s.full="+hx.Hex(fb)+fe)
 		}
@@ -930,7 +961,7 @@ func main() {
 	// 2. random: methods, statuses, encodings, content types, chunkings, trailers
 	nr := 900
 	if cfg.Thorough() {
-		nr = 80000
+		nr = 50000
 	}
 	methods := []string{"GET", "POST", "PUT", "DELETE", "PATCH", "OPTIONS", "HEAD"}
 	statuses := []int{200, 201, 204, 206, 301, 304, 404, 500}
@@ -977,6 +1008,15 @@ func main() {
 		}
 		sz := bsizes[r.Intn(len(bsizes))]
 		fr := []string{"cl", "cl", "ch", "ch", "none"}[r.Intn(5)]
+		if kind == "REQ" && in[1] == "lg=marbl" && r.Chance(7, 8) {
+			// marbl + body-less request is known finding C15-K3: mostly give it a body
+			if sz == 0 {
+				sz = 1 + r.Intn(5000)
+			}
+			if fr == "none" {
+				fr = "cl"
+			}
+		}
 		if v10 && fr == "ch" {
 			// HTTP/1.0 has no chunked coding (net/http ignores the header and the
 			// chunk framing would become the body)
@@ -998,7 +1038,11 @@ func main() {
 			case 2:
 				in = append(in, "D"+hx.HexS("X-Declared-Only"))
 			case 3:
-				in = append(in, tkv("X-Undeclared", "u"), "U")
+				// undeclared trailers are known finding C15-K2: keep them rare so
+				// that the known cases do not crowd the report
+				if r.Chance(1, 8) {
+					in = append(in, tkv("X-Undeclared", "u"), "U")
+				}
 			}
 		}
 		emit("rnd", in)
